@@ -368,6 +368,7 @@ type expect struct {
 	propOK []bool // slot-wise: did the property hold on the implementation for this input
 	anyOf  bool   // P lines with several candidate `now`: handled by group
 	onlySlot int  // history lines: compare just this slot (1-based; 0 = all)
+	resetVariant bool // R line of a Q/R group
 	objHist  bool // Q lines: results of a reused object; positions answered `range` by the model are not compared
 	group  int
 }
@@ -405,6 +406,8 @@ func main() {
 		"non-trivial = instant inside the century; distinct = distinct instants. " +
 		"D: histories — seeded random sequences of calls mixing every public helper (and a shared DateFormat, and the clock-reading variants) over a pool of instants " +
 		"(same second, adjacent seconds, same minute/day, far apart; interleaved, repeated) plus all ordered pairs of helpers on two instants; each answer vs the time package and vs the model. " +
+		"G: DateFormat with time.Local in six constant-offset zones (non-hour offsets included; format and parse vs the zone model) and four zones with transitions (round trip judged away from transitions only). " +
+		"H: SetDelta / SetServerTime(…,1.0) moving the clock to instants of the century, then Now / TimeStampNow / YmdNow / GetDateUnitNow vs SystemNow()+delta and vs the package state machine. " +
 		"F: one DateFormat object parsing 2-4 texts in a row (formatted instants, cut short, with signs/letters) vs the object model. " +
 		"E: 12-16 goroutines call every public helper on their own instants (two shared) for a fixed time, every answer vs the value precomputed from the time package; run in a child process (crash = finding), under -race in the thorough tier. " +
 		"C: patterns over the letters ymdHMSs with random literal separators (ASCII, digits, non-ASCII), full and partial, x instants; " +
@@ -895,8 +898,12 @@ func main() {
 		for k, tx := range texts {
 			fmt.Fprintf(&b, " %d %s", nows[k], cps(tx))
 		}
-		add(b.String(), expect{want: []string{strings.Join(outs, ";")}, key: "DateFormat.Parse:reused-object", objHist: true,
-			rep: map[string]interface{}{"op": "Q", "pattern": pat, "texts": texts, "results": outs, "stage": tag}})
+		// the object as it is (map kept between calls) — or, if the repair proposed in proposed/C19/fix-D41-reuse.diff
+		// has been applied, the map cleared on entry: either model explains the implementation
+		group++
+		rp := map[string]interface{}{"op": "Q", "pattern": pat, "texts": texts, "results": outs, "stage": tag}
+		add(b.String(), expect{want: []string{strings.Join(outs, ";")}, key: "DateFormat.Parse:reused-object", objHist: true, anyOf: true, group: group, rep: rp})
+		add("R"+b.String()[1:], expect{want: []string{strings.Join(outs, ";")}, key: "DateFormat.Parse:reused-object", objHist: true, anyOf: true, group: group, rep: rp, resetVariant: true})
 	}
 	if !replayMode {
 		nobj := 400
@@ -986,6 +993,150 @@ func main() {
 		}
 		// the witness of C19.finding_reuse
 		objHistory("y-m-d", []string{"2024-02-29", "2025-03-01"}, "witness")
+		// a text cut at a field boundary: the day of the second call is the one stored by the first (or today's, once the map is cleared on entry)
+		objHistory("y-m-d", []string{"2024-02-17", "2025"}, "witness-cut")
+		objHistory("d.m.y", []string{"17.02.2024", "05"}, "witness-cut")
+	}
+
+	// ------------------------------------------------------------ G: DateFormat in other zones
+	// format reads the fields in the zone of its argument, Parse builds the instant in time.Local.
+	// Constant-offset zones (incl. non-hour offsets) are modelled (formatIn / parseObjIn); zones with
+	// transitions are only compared with the property away from their transitions.
+	if !replayMode {
+		type zc struct {
+			name string
+			off  int
+		}
+		nz := 50
+		if env.Thorough {
+			nz = 3000
+		}
+		for _, z := range []zc{{"+05:45", 20700}, {"-03:30", -12600}, {"+14:00", 50400}, {"-12:00", -43200}, {"+00:20", 1200}, {"-00:01", -60}} {
+			loc := time.FixedZone(z.name, z.off)
+			time.Local = loc
+			for i := 0; i < nz; i++ {
+				pat := genPattern(rng, rng.Chance(70))
+				t := baseMs + rng.Range(1, nDays-2)*dayMs + rng.Range(0, dayMs-1)
+				if rng.Chance(20) { // around local midnight
+					t = baseMs + rng.Range(1, nDays-2)*dayMs - int64(z.off)*1000 + rng.Range(-2, 2)
+				}
+				text := guardS(func() string { return dateutil.NewDateFormat(pat).FormatTime(time.UnixMilli(t).In(loc)) })
+				rp := map[string]interface{}{"op": "Z", "pattern": pat, "t": t, "zone_offset_s": z.off, "text": text}
+				rep.Case(fmt.Sprintf("zone:%s:%s@%d", z.name, pat, t), true)
+				rep.Count("G:fixed-offset-zone " + z.name)
+				add(fmt.Sprintf("FZ %s %d %d", cps(pat), t, int64(z.off)*1000), expect{want: []string{cps(text)}, key: "DateFormat.format:zone", rep: rp})
+				pr := implParse(pat, text)
+				if hasAll(pat) && pr.out != strconv.FormatInt(t, 10) {
+					rep.Fail("property", "DateFormat.Parse:zone-roundtrip", fmt.Sprintf("zone %s: Parse(FormatTime(%d)) with pattern %q = %s", z.name, t, pat, pr.out), rp)
+				}
+				group++
+				for now := pr.before; now <= pr.after; now++ {
+					add(fmt.Sprintf("PZ %s %d %s %d", cps(pat), now, cps(text), int64(z.off)*1000),
+						expect{want: []string{pr.out}, key: "DateFormat.Parse:zone", rep: rp, anyOf: true, group: group})
+					if hasAll(pat) {
+						break
+					}
+				}
+			}
+		}
+		for _, name := range []string{"America/New_York", "Europe/London", "Australia/Lord_Howe", "Asia/Seoul"} {
+			loc, err := time.LoadLocation(name)
+			if err != nil {
+				rep.Note("zone %s not available: %v", name, err)
+				continue
+			}
+			time.Local = loc
+			for i := 0; i < nz; i++ {
+				t := baseMs + rng.Range(1, nDays-2)*dayMs + rng.Range(0, dayMs-1)
+				tm := time.UnixMilli(t).In(loc)
+				_, o1 := time.UnixMilli(t - 3*3600000).In(loc).Zone()
+				_, o2 := time.UnixMilli(t + 3*3600000).In(loc).Zone()
+				pat := "y-m-d H:M:S.s"
+				text := guardS(func() string { return dateutil.NewDateFormat(pat).FormatTime(tm) })
+				pr := implParse(pat, text)
+				rep.Case(fmt.Sprintf("zone:%s@%d", name, t), true)
+				if o1 != o2 {
+					rep.Count("G:dst-zone-near-transition(not-judged) " + name)
+					continue
+				}
+				rep.Count("G:dst-zone " + name)
+				if pr.out != strconv.FormatInt(t, 10) {
+					rep.Fail("property", "DateFormat.Parse:zone-roundtrip", fmt.Sprintf("zone %s: Parse(FormatTime(%d)) = %s", name, t, pr.out),
+						map[string]interface{}{"op": "Z", "zone": name, "t": t, "text": text})
+				}
+			}
+		}
+		time.Local = time.UTC
+	}
+
+	// ------------------------------------------------------------ H: the clock delta and the …Now variants
+	// Now() = SystemNow() + delta; TimeStampNow / YmdNow / GetDateUnitNow render Now(); SetDelta / SetServerTime(…, 1.0)
+	// set delta; nothing else does (model: Golib.Cal.Pkg).  The delta moves the clock to chosen instants of the century.
+	if !replayMode {
+		nd := 150
+		if env.Thorough {
+			nd = 5000
+		}
+		for i := 0; i < nd; i++ {
+			target := baseMs + rng.Range(0, nDays-1)*dayMs + rng.Pick64([]int64{0, 1, 999, 59999, 86399990, 86399999, rng.Range(0, dayMs-1)})
+			sys := dateutil.SystemNow()
+			d := target - sys
+			rp := map[string]interface{}{"op": "N", "delta": d}
+			rep.Evaluations++
+			if rng.Chance(30) {
+				got := dateutil.SetServerTime(target, 1.0)
+				if got < d-5 || got > d || dateutil.GetDelta() != got {
+					rep.Fail("property", "SetServerTime:delta", fmt.Sprintf("SetServerTime(%d, 1.0) = %d, GetDelta() = %d, expected serverTime - SystemNow() ≈ %d", target, got, dateutil.GetDelta(), d), rp)
+				}
+				d = got
+				rep.Count("H:SetServerTime")
+			} else {
+				dateutil.SetDelta(d)
+				if dateutil.GetDelta() != d {
+					rep.Fail("property", "SetDelta:GetDelta", fmt.Sprintf("SetDelta(%d); GetDelta() = %d", d, dateutil.GetDelta()), rp)
+				}
+				rep.Count("H:SetDelta")
+			}
+			// pure helpers are not affected by the delta
+			probe := baseMs + rng.Range(0, nDays-1)*dayMs + rng.Range(0, dayMs-1)
+			if got, want := dateutil.TimeStamp(probe), stdHelpers(probe)[slotTS]; got != want {
+				rep.Fail("property", "TimeStamp:depends-on-delta", fmt.Sprintf("with delta %d TimeStamp(%d) = %q, want %q", d, probe, got, want), rp)
+			}
+			which := rng.Intn(4)
+			before := dateutil.SystemNow()
+			var got string
+			switch which {
+			case 0:
+				got = strconv.FormatInt(dateutil.Now(), 10)
+			case 1:
+				got = dateutil.TimeStampNow()
+			case 2:
+				got = dateutil.YmdNow()
+			case 3:
+				got = strconv.FormatInt(dateutil.GetDateUnitNow(), 10)
+			}
+			after := dateutil.SystemNow()
+			name := []string{"now", "ts", "ymd", "du"}[which]
+			rep.Count("H:" + name)
+			okDirect := false
+			group++
+			for c := before; c <= after; c++ {
+				x := c + d
+				var want string
+				if x >= baseMs && x < endMs {
+					std := stdHelpers(x)
+					want = []string{strconv.FormatInt(x, 10), std[slotTS], std[0], std[8]}[which]
+				}
+				if want == got {
+					okDirect = true
+				}
+				add(fmt.Sprintf("N %d %d %s", c, d, name), expect{want: []string{got}, key: "Now-variants", rep: rp, anyOf: true, group: group})
+			}
+			if !okDirect {
+				rep.Fail("property", name+":not-SystemNow-plus-delta", fmt.Sprintf("delta %d: %s() = %q is not the rendering of SystemNow()+delta for any clock reading in [%d,%d]", d, name, got, before, after), rp)
+			}
+		}
+		dateutil.SetDelta(0)
 	}
 
 	// ------------------------------------------------------------ E: concurrent calls (child process, see conc.go)
@@ -1073,7 +1224,21 @@ func main() {
 			if _, ok := groupSeen[e.group]; !ok {
 				groupSeen[e.group] = i
 			}
-			if got == e.want[0] {
+			if e.objHist {
+				g, w := strings.Split(got, ";"), strings.Split(e.want[0], ";")
+				same := len(g) == len(w)
+				for k := 0; same && k < len(g); k++ {
+					if g[k] != "range" && g[k] != w[k] {
+						same = false
+					}
+				}
+				if same {
+					if e.resetVariant && !groupOK[e.group] {
+						rep.Count("F:explained-only-by-cleared-map-variant")
+					}
+					groupOK[e.group] = true
+				}
+			} else if got == e.want[0] {
 				groupOK[e.group] = true
 			}
 			if got == "range" { // year outside 1970..2200 (UnixNano overflows / negative instants): not modelled
